@@ -3,10 +3,9 @@
 #include "engine/tablegen.hpp"
 #include "ref/bspline_ref.hpp"
 #include <photospline/cinter/splinetable.h>
-#include <memory>
-#include <map>
+#include "engine/evalspace.hpp"
+using namespace es;
 
-typedef photospline::splinetable<> Table;
 static vf::Harness* H;
 
 static double tol_for(const ref::EvalResult& r, size_t nd, uint32_t maxorder, bool isfloat) {
@@ -16,36 +15,6 @@ static double tol_for(const ref::EvalResult& r, size_t nd, uint32_t maxorder, bo
   // working precision loses up to that much absolute accuracy before it is scaled by |c|
   double tiny = (isfloat ? 1.2e-38 : 2.3e-308) * (double)(nd + 2) * (1.0 + (double)r.cabs);
   return K * eps * (double)r.mag + tiny;
-}
-
-struct Built {
-  tg::TableSpec spec;
-  std::unique_ptr<Table> nanpad, hugepad;
-  uint32_t maxorder = 0;
-};
-static std::unique_ptr<Built> make(const tg::TableSpec& s) {
-  std::unique_ptr<Built> b(new Built);
-  b->spec = s;
-  b->nanpad.reset(new Table); tg::build(*b->nanpad, s);
-  b->hugepad.reset(new Table); tg::build(*b->hugepad, s, 1e300);
-  for (auto& d : s.dims) b->maxorder = std::max(b->maxorder, d.order);
-  return b;
-}
-
-static const char* count_name(int c) { static const char* n[] = {"min", "min+1", "min+3"}; return n[c]; }
-static uint64_t count_for(uint32_t order, int c) { return 2 * order + 2 + (c == 0 ? 0 : (c == 1 ? 1 : 3)); }
-
-// coarse failure class: knot-count class + the set of point classes present on the axes
-static std::string coarse(const std::string& tabkey, const std::string& ptcls) {
-  bool anymin = false;
-  for (size_t p = tabkey.find("min"); p != std::string::npos; p = tabkey.find("min", p + 3))
-    if (p + 3 >= tabkey.size() || tabkey[p + 3] != '+') anymin = true;
-  std::string cnt = anymin ? "some-minimal" : "none-minimal";
-  std::set<std::string> parts; std::string cur;
-  for (char c : ptcls + ",") { if (c == ',') { if (!cur.empty()) parts.insert(cur); cur.clear(); } else cur += c; }
-  std::string o = "count=" + cnt + ":pt=";
-  bool first = true; for (auto& p : parts) { if (!first) o += "+"; o += p; first = false; }
-  return o;
 }
 
 // evaluate one point through every C01 entry point and compare with the reference
@@ -138,19 +107,6 @@ static void run_d2(uint64_t idx, bool thorough) {
   for (auto& a : p0) for (auto& c : p1) check_point(*b, {a.x, c.x}, tabkey, std::string(a.cls) + "," + c.cls, ck == 0, true);
 }
 
-// five structural points per axis: margins, interior, and the two special exact knots
-static std::vector<tg::Pt> five_points(const tg::DimSpec& D) {
-  const auto& k = D.knots; uint64_t n = k.size(), na = D.naxes(); uint32_t o = D.order;
-  std::vector<tg::Pt> p;
-  auto mid = [&](uint64_t i) { return k[i] + 0.5 * (k[i + 1] - k[i]); };
-  p.push_back({mid(0), o ? "left-margin" : "interior"});
-  p.push_back({mid(o), "interior"});
-  p.push_back({mid(n - 2), o ? "right-margin" : "interior"});
-  p.push_back({k[o > 0 ? o : 1], "knot:k[order]"});
-  p.push_back({k[na], "knot:k[naxes]"});
-  return p;
-}
-
 // ---------------------------------------------------------------- d = 3
 static void run_d3(uint64_t idx) {
   static const vf::Radix R{6, 6, 6, 2, 2};
@@ -170,31 +126,6 @@ static void run_d3(uint64_t idx) {
 }
 
 // ---------------------------------------------------------------- d = 4..9
-struct HiPattern { const char* name; std::vector<uint32_t> orders; };
-static std::vector<HiPattern> hi_patterns(int d, bool thorough) {
-  std::vector<HiPattern> ps;
-  int maxconst = thorough ? (d <= 6 ? 5 : (d <= 7 ? 4 : 3)) : (d <= 5 ? 4 : (d <= 7 ? 3 : 2));
-  for (int k = 0; k <= maxconst; k++) ps.push_back({nullptr, std::vector<uint32_t>(d, k)});
-  { std::vector<uint32_t> o(d, 2); o[d / 2] = 3; ps.push_back({"all2-one3", o}); }
-  { std::vector<uint32_t> o(d, 1); o[d - 1] = 5; ps.push_back({"all1-last5", o}); }
-  if (thorough || d <= 6) { std::vector<uint32_t> o(d); for (int i = 0; i < d; i++) o[i] = (d >= 8 ? i % 3 : (d >= 7 ? i % 4 : i % 6)); ps.push_back({"alternating", o}); }
-  if (d == 6) { ps.push_back({"known-222322", {2, 2, 2, 3, 2, 2}}); ps.push_back({"known-222522", {2, 2, 2, 5, 2, 2}}); }
-  return ps;
-}
-static std::map<std::string, std::unique_ptr<Built>> g_cache;
-static Built& hi_table(int d, const HiPattern& p, int cnt, long seed) {
-  std::string key = vf::fmt("%d/%s/%d", d, vf::vecstr(p.orders).c_str(), cnt);
-  auto it = g_cache.find(key);
-  if (it != g_cache.end()) return *it->second;
-  if (g_cache.size() > 3) g_cache.clear();
-  tg::TableSpec s;
-  for (int i = 0; i < d; i++) s.dims.push_back({p.orders[i], tg::make_knots(i % 2 ? tg::K_IRREGULAR : tg::K_UNIFORM, p.orders[i], count_for(p.orders[i], cnt), 0.25 * i)});
-  s.coeffs = tg::make_coeffs(1, s.ncoeffs(), seed, d * 100 + cnt);
-  auto b = make(s);
-  Built& r = *b;
-  g_cache[key] = std::move(b);
-  return r;
-}
 static void run_hi(int d, uint64_t idx, bool thorough) {
   auto ps = hi_patterns(d, thorough);
   uint64_t npts = 1; for (int i = 0; i < d; i++) npts *= 3;
